@@ -186,6 +186,8 @@ def threshold_cases():
             out.append(mk_case(dict(name="K", bases=[], members=members), "threshold", {"position": "PBody", "pattern": "disjoint", "k": k}, low=lo, med=me))
         # the same lattice for classes of coroutine methods only, and with exactly one plain def among them (first, middle, last by turns)
         for j, (lo, me) in enumerate(pairs):
+            if (j + k) % 3:
+                continue                              # three of the nine pairs per k, another three for the next k
             if (j + k) % 2:
                 out.append(mk_case(dict(name="K", bases=[], members=with_async(members, 2 ** k - 1)), "threshold-async",
                                    {"position": "PBody", "pattern": "disjoint-all-async", "k": k}, low=lo, med=me))
@@ -874,7 +876,7 @@ def main(tier):
                 "classes of 1..5 coroutine methods only - disjoint, call chain, attribute chain, hub, decorated, with excluded ones; %d bodies only a coroutine can have - await, async for iter / target / body / else, async with item / target / body, "
                 "async comprehension, async generator yields - holding the joining self.x / self.m()), decided against Python's syntax tree for LCOM4, MethodGroups, TotalMethods, ExcludedMethods and the risk level under %d threshold pairs, through the analyser AND through `pyscn analyze` with a .pyscn.toml per pair, "
                 % (n_kinds, len(METHOD_KINDS), len(ASYNC_FORMS), len(KIND_THRESHOLDS)) +
-                "every position of the matrix once more with some / all methods `async def` (pattern and mask rotating with the position), the threshold lattice once more with all-coroutine classes and classes with exactly one plain def (alternating), "
+                "every position of the matrix once more with some / all methods `async def` (pattern and mask rotating with the position), a third of the threshold lattice once more with all-coroutine classes and classes with exactly one plain def (alternating; pairs rotating with the number of components), "
                 "threshold lattice (1..8 components x 9 threshold pairs), random classes (0..12 methods, shared attributes, self-calls, static/class methods, "
                 "duplicate method names, every position; every definition `def` or `async def`: per class none, 15 %%, half, 85 %%, all), union-find stress classes (6..14 methods, every attribute shared by two or three methods, no method touching everything; a third of the classes with a random half of the methods `async def`, a third with all: "
                 "random/deep trees, forests, trees with extra edges, chains joined in the middle, pairs joined through a third attribute, stars linked leaf to leaf, caterpillars; "
